@@ -370,6 +370,14 @@ func startIngestServer(serverAddr string) {
 	log.Infof(siglensStartupLog)
 	cfg := config.DefaultIngestionHttpConfig()
 	s := ingestserver.ConstructIngestServer(cfg, serverAddr)
+
+	// Replay the metrics WALs of the previous process life BEFORE the listener accepts requests: the first
+	// ingested datapoint creates this life's WAL files in the same directory (and truncates the meta-entry
+	// WAL); recovery would delete the former and find the latter already emptied.
+	metrics.RecoverWALData()
+	metrics.RecoverMNameWALData()
+	metrics.RecoverMEntryWALData()
+
 	go func() {
 		var err error
 		if config.IsSafeMode() {
@@ -387,11 +395,6 @@ func startIngestServer(serverAddr string) {
 			}
 		}
 	}()
-
-	metrics.RecoverWALData()
-	metrics.RecoverMNameWALData()
-	metrics.RecoverMEntryWALData()
-
 }
 
 func startQueryServer(serverAddr string) {
